@@ -72,7 +72,12 @@ def ioapi_ops(f, np):
     """in-domain operations on an IOAPI file: (name, thunk) """
     nt, nz = len(f.dimensions['TSTEP']), len(f.dimensions['LAY'])
     grid = 'ROW' in f.dimensions
-    names = [k for k in f.variables if k not in ('TFLAG', 'ETFLAG')]
+    # data variables = the ones VAR-LIST names (coordinate variables such as layer/time/x/y of a GRIDDESC file are
+    # not IOAPI data variables); a rename targets a name that is not in use (renaming onto an existing variable
+    # replaces it -- netCDF4 refuses that -- and is outside the property's domain)
+    listed = [f.getncattr('VAR-LIST')[i:i + 16].strip() for i in range(0, len(f.getncattr('VAR-LIST')), 16)] if 'VAR-LIST' in f.ncattrs() else []
+    names = [k for k in listed if k in f.variables] or [k for k in f.variables if k not in ('TFLAG', 'ETFLAG')]
+    fresh = next('RENAMED%s' % (i or '') for i in range(100) if 'RENAMED%s' % (i or '') not in f.variables)
     ops = [
         ('copy', lambda f: f.copy()),
         ('slice(TSTEP=0)', lambda f: f.sliceDimensions(TSTEP=0)),
@@ -82,8 +87,12 @@ def ioapi_ops(f, np):
         ('slice(LAY=0)', lambda f: f.sliceDimensions(LAY=0)),
         ('slice(LAY=slice(1,None))', lambda f: f.sliceDimensions(LAY=slice(1, None))),
         ('subset(first)', lambda f: f.subsetVariables(names[:1])),
-        ('renameVariable', lambda f: f.renameVariable(names[0], 'RENAMED')),
+        ('renameVariable', lambda f: f.renameVariable(names[0], fresh)),
+        ('renameVariable(identity)', lambda f: f.renameVariable(names[0], names[0])),
         ('apply(TSTEP=mean)', lambda f: f.applyAlongDimensions(TSTEP='mean')),
+        ('apply(TSTEP=x[::-1])', lambda f: f.applyAlongDimensions(TSTEP=lambda x: x[::-1])),
+        ('apply(TSTEP=roll)', lambda f: f.applyAlongDimensions(TSTEP=lambda x: np.roll(x, 1))),
+        ('apply(TSTEP=cumsum)', lambda f: f.applyAlongDimensions(TSTEP=np.cumsum)),
         ('apply(LAY=mean)', lambda f: f.applyAlongDimensions(LAY='mean')),
         ('apply(LAY=x[::2])', lambda f: f.applyAlongDimensions(LAY=lambda x: x[::2])),
         ('eval(new)', lambda f: f.eval('NEWV = %s[:] * 2' % names[0])),
